@@ -507,6 +507,10 @@ def requery_cases(draw, tier):
     return case
 
 
+# (what round 8 added to the case domain; part of the evidence text)
+RULE_ROUND8 = ' One generated forest in 20 (60 in the thorough tier) is a BIG one (gen.big_specs: a child list of 11..300 nodes, that many clones of one data object, more than 256 nodes), with node references aimed at notable positions of the long child lists. A third of the random cases use data objects whose format() text differs from their str() text. Part ascii-stdout: random-options once more in a child interpreter with PYTHONIOENCODING=ascii (format() returns text; it does not depend on what sys.stdout can encode).'
+RULE = RULE + RULE_ROUND8
+
 PARTS = [
     Part("exhaustive", run_exhaustive, enum=enum_cases),
     Part("random-options", run_random, strategy=lambda tier: hyp_cases(tier), n={"quick": 2000, "thorough": 200000}),
